@@ -22,7 +22,7 @@ use crate::{
 pub const DEF: PropDef = PropDef {
     id: "C02",
     groups,
-    rule: "entry point x input/output shape x sample_size 0..=6 x sample_count 1..=4 x T 1..=3 x bench/test, with an allocation script (alloc / alloc_zeroed / realloc grow|shrink|same / dealloc, sizes 1..64 KiB, blocks handed between phases through a per-thread stack) per role: generator, counter, benchmarked function, output destructor, input destructor; \
+    rule: "entry point x input/output shape x sample_size 0..=6 x sample_count 1..=4 x T 1..=3 x bench/test, with an allocation script (alloc / alloc_zeroed / realloc grow|shrink|same / dealloc, sizes 1..64 KiB, blocks handed between phases through a per-thread stack) per role: generator, counter, benchmarked function, output destructor, input destructor; the benchmarked function's script optionally restricted by a call mask (index mod 16) and a thread mask, so that samples without allocations precede samples with some; \
            non-trivial = the generator (or counter) and at least one destructor performed allocator operations in a round that made calls (a leak into the timed section would change the figure); distinct by serialized case; classes report the loop path.",
     assumptions: &[
         "program order only: the fences around the timestamp reads order machine instructions, which no generated test can observe",
@@ -168,6 +168,17 @@ pub fn check_case(c: &LoopCase) -> Verdict {
     Verdict::pass(sensitive)
 }
 
+/// `(benched_call_mask, benched_thread_mask)`: which calls / threads run the
+/// benchmarked function's allocation script (0 = all).
+pub fn alloc_masks() -> impl Strategy<Value = (u16, u8)> {
+    prop_oneof![
+        3 => Just((0u16, 0u8)),
+        2 => (any::<u16>(), Just(0u8)),
+        2 => (Just(0u16), 1u8..=7),
+        1 => (any::<u16>(), 1u8..=7),
+    ]
+}
+
 pub fn alloc_steps(max: usize) -> impl Strategy<Value = Vec<AllocStep>> {
     let size = || prop_oneof![3 => 1u32..=64, 2 => 1u32..=4096, 1 => 1u32..=65_536];
     proptest::collection::vec(
@@ -185,9 +196,9 @@ fn case() -> impl Strategy<Value = LoopCase> {
     (
         (c01::entry(), c01::shape(), c01::shape(), 1u8..=3, 1u32..=4, prop_oneof![1 => Just(Some(0u32)), 6 => (1u32..=6).prop_map(Some), 2 => Just(None)], prop::bool::weighted(0.15)),
         (alloc_steps(4), alloc_steps(4), alloc_steps(3), alloc_steps(3), alloc_steps(2)),
-        (proptest::array::uniform4(prop::bool::weighted(0.3)), prop_oneof![3 => Just(0u32), 1 => 1u32..=5], any::<bool>(), 0u64..=20),
+        (proptest::array::uniform4(prop::bool::weighted(0.3)), prop_oneof![3 => Just(0u32), 1 => 1u32..=5], any::<bool>(), 0u64..=20, alloc_masks()),
     )
-        .prop_map(|((entry, input, output, threads, n, s, test_mode), (gen, benched, drop_out, drop_in, counter), (input_counters, first, vary, cost))| {
+        .prop_map(|((entry, input, output, threads, n, s, test_mode), (gen, benched, drop_out, drop_in, counter), (input_counters, first, vary, cost, (call_mask, thread_mask)))| {
             let mut c = LoopCase::basic(entry, input, output);
             c.threads = threads;
             c.sample_count = Some(n);
@@ -196,7 +207,7 @@ fn case() -> impl Strategy<Value = LoopCase> {
             c.input_counters = input_counters;
             // Tuned sizes: 1 tick = 1 ns, precision 1 ns, so the size freezes by 128.
             c.costs.call = CostModel::Const(if s.is_none() { cost.max(1) } else { cost });
-            c.allocs = AllocScripts { benched_first_calls: first, benched_vary: vary, vary_by_thread: vary, gen, benched, drop_out, drop_in, counter };
+            c.allocs = AllocScripts { benched_first_calls: first, benched_vary: vary, vary_by_thread: vary, benched_call_mask: call_mask, benched_thread_mask: thread_mask, gen, benched, drop_out, drop_in, counter };
             c
         })
 }
@@ -219,6 +230,8 @@ fn matrix(_: crate::engine::Tier) -> Vec<LoopCase> {
                         benched_first_calls: 0,
                         benched_vary: true,
                         vary_by_thread: true,
+                        benched_call_mask: 0,
+                        benched_thread_mask: 0,
                         gen: vec![AllocStep::Alloc(100)],
                         benched: vec![AllocStep::Alloc(7), AllocStep::Realloc(30), AllocStep::Dealloc],
                         drop_out: vec![AllocStep::Alloc(200), AllocStep::Dealloc],
@@ -236,5 +249,5 @@ fn matrix(_: crate::engine::Tier) -> Vec<LoopCase> {
 
 fn groups(g: &mut Groups) {
     g.enumerate("matrix", matrix, true, check_case);
-    g.prop("random", 12_000, 400_000, case(), check_case);
+    g.prop("random", 48_000, 400_000, || case(), check_case);
 }
